@@ -20,7 +20,8 @@ S == [authAlg |-> AuthOf(AuthNum).alg, integAlg |-> IntegOf(IntegNum).alg,
       authNum |-> AuthNum, integNum |-> IntegNum, confNum |-> 1,
       icvLen |-> AuthOf(AuthNum).icv, integLen |-> IntegOf(IntegNum).len,
       uname |-> <<97, 100, 109, 105, 110>>, pw |-> [i \in 1..12 |-> (i * 17 + Seed) % 256], kg |-> <<>>,
-      priv |-> 4, lookup |-> TRUE, bmcSid |-> <<33, 67, 101, 135>>,
+      \* (a BMC that hands out session IDs from 1 - the same number a console may well pick for its own - in every other run)
+      priv |-> 4, lookup |-> TRUE, bmcSid |-> IF (Seed + AuthNum) % 2 = 0 THEN <<1, 0, 0, 0>> ELSE <<33, 67, 101, 135>>,
       rc |-> [i \in 1..16 |-> (i * 11 + 3 + Seed) % 256], guid |-> [i \in 1..16 |-> (100 + i) % 256]]
 
 \* the command: a raw Storage command; the response data is the value
@@ -86,7 +87,13 @@ Forgeries(L) ==
        sc("wrong-hash", Pkt(192, Var("sidM"), good, LAMBDA s : Trunc(Hmac(IF S.integAlg = "sha1" THEN "sha256" ELSE "sha1", Ref("K1"), s), S.integLen))),
        sc("wrong-session-id", Pkt(192, B(<<9, 9, 9, 9>>), good, GoodAuth)),
        sc("session-id-zero", Pkt(192, B(<<0, 0, 0, 0>>), good, GoodAuth)),
-       sc("bmc-session-id", Pkt(192, B(S.bmcSid), good, GoodAuth)),
+       \* IPMI v1.5 session wrappers (authentication type none: no AuthCode, no encryption) around the same message
+       sc("v15-wrapper-console-sid", Cat(<< Rmcp, B(<<0>>), B(LE32s(1)), Var("sidM"), B(<<n>>), msg >>)),
+       sc("v15-wrapper-bmc-sid", Cat(<< Rmcp, B(<<0>>), B(LE32s(1)), B(S.bmcSid), B(<<n>>), msg >>)),
+       sc("v15-wrapper-null-sid", Cat(<< Rmcp, B(<<0, 0, 0, 0, 0, 0, 0, 0, 0>>), B(<<n>>), msg >>)) }
+     \* (addressed to the BMC's own session ID: a forgery unless the two IDs happen to coincide, which cannot be known here)
+     \cup (IF S.bmcSid = <<1, 0, 0, 0>> THEN {} ELSE { sc("bmc-session-id", Pkt(192, B(S.bmcSid), good, GoodAuth)) })
+     \cup {
        sc("unsigned-plaintext-in-session-header", Cat(<< Rmcp, B(<<6, 0>>), Var("sidM"), B(LE32s(1)), Len16(msg), msg >>)) }
      \cup { sc(bp[1], Pkt(192, Var("sidM"), EncPayload(msg, bp[2]), GoodAuth)) : bp \in badpads }
      \cup (IF DigestLen(S.integAlg) > S.integLen
